@@ -257,4 +257,6 @@ def run(tier, replay=None):
         "ingress-id order supplied by the harness per salt; BLAKE3 collision-freeness for the hash relations",
         "restart = fresh runtime + restore_witnessed_submission_persistence + restore_causal_runtime_history (what TrustedRuntimeHost::enable_runtime_wal does); WAL byte-level recovery is C10",
     ]
+    import c08l                                  # legacy graph-backed inbox of the Engine (spec/Inbox.tla)
+    c08l.run_leg(ck, binp, tier, replay)
     return ck.finish()
